@@ -15,10 +15,10 @@ var readCmds = []string{"get", "batchget", "scan"}
 var writeCmds = []string{"prewrite", "commit", "plock"}
 
 // reduced alphabet of the exhaustive part: one representative per handling branch of onSendFail / onRegionError
-var reduced = []string{"ok", "rpcerr", "down", "deadline", "nl", "nl2", "nlnext", "epoch", "rnf", "busy", "busyw", "stale", "dnr", "maxts", "unk"}
+var reduced = []string{"ok", "rpcerr", "down", "deadline", "nl", "nl2", "nlnext", "epoch", "rnf", "busy", "busyw", "busydl", "stale", "dnr", "maxts", "unk", "dlmsg", "flashback"}
 
 // smaller alphabet used for the longest exhaustive length
-var core = []string{"ok", "rpcerr", "nl", "nl2", "nlnext", "busy", "stale", "dnr", "deadline"}
+var core = []string{"ok", "rpcerr", "nl", "nl2", "nlnext", "busy", "busydl", "stale", "dnr", "deadline"}
 
 var budgets = []int{1, 40, 600, 2000, 40000}
 
@@ -128,7 +128,7 @@ func randScript(r *vx.Rand, maxLen int) []string {
 }
 
 // leaderRetry: answers after which the sender tries the same (leader) replica again, so that its attempts get exhausted
-var leaderRetry = []string{"stale", "maxts", "busy", "unk", "dlmsg", "diskfull", "rpcerr", "epochold"}
+var leaderRetry = []string{"stale", "maxts", "busy", "busydl", "unk", "dlmsg", "diskfull", "rpcerr", "epochold", "notinit", "rinr", "merging", "grpccancel"}
 var hintFaults = []string{"nl1", "nl2", "nl3", "nlnext"}
 
 // deepScript exhausts a replica and then lets the stores send leader hints (the onUpdateLeader refill path)
@@ -207,6 +207,28 @@ func generate(run *vx.Run, exec func(string)) {
 				k += 5 // 5 is coprime to 12: every (mode, cmd) comes round
 			}
 		})
+	}
+	// 1b. every answer of the FULL alphabet as the forever answer, for every (mode, cmd) and both time-out classes;
+	// every ordered pair (first answer, forever answer) for rotating (mode, cmd)
+	for _, f := range faults {
+		for _, cb := range combos {
+			for _, short := range []bool{false, true} {
+				c := defaultCfg()
+				c.cmd, c.mode, c.short = cb.cmd, cb.mode, short
+				c.learner = cb.mode == "learner"
+				c.wflag = 1
+				c.budget = 40000
+				g.emit(c, []string{f})
+			}
+		}
+	}
+	for _, f1 := range faults {
+		for _, f2 := range faults {
+			for i := 0; i < rot+1; i++ {
+				one([]string{f1, f2}, combos[k%len(combos)])
+				k += 5
+			}
+		}
 	}
 	// 2. random scripts up to length 30 over the full alphabet with random configurations
 	for i := 0; i < nRand; i++ {
